@@ -25,13 +25,13 @@ Lemma E_comp f g : E f -> E g -> E (fun w => f (g w)).
 Proof. intros Hf Hg w. eapply ext_trans; [apply Hg|apply Hf]. Qed.
 Lemma E_fold {Y} (f : world -> Y -> world) l : (forall x, E (fun w => f w x)) -> E (fun w => fold_left f l w).
 Proof. intros H. induction l as [|x l IH]; intros w; cbn [fold_left]; [apply ext_refl|]. eapply ext_trans; [apply (H x w)|apply IH]. Qed.
-Lemma same_ext w w' : same w w' -> ext w w'.
+Lemma same_ext {b} w w' : sameb b w w' -> ext w w'.
 Proof.
   intros Hs. constructor; [apply (sm_now _ _ Hs)|rewrite (sm_tmr _ _ Hs); auto|rewrite (sm_can _ _ Hs); auto|].
   destruct (sm_ready _ _ Hs) as (l & A & B). exists l. split; [exact A|]. eapply Forall_impl; [|exact B]. intros r Hr. apply Hr.
 Qed.
-Lemma E_neutral f : neutral f -> E f.
-Proof. intros H w. apply same_ext, H. Qed.
+Lemma E_neutral {b} f : (forall w, sameb b w (f w)) -> E f.
+Proof. intros H w. eapply same_ext, H. Qed.
 
 (* ---- primitives *)
 Lemma E_call_later d h : E (fun w => snd (call_later d h w)).
@@ -59,18 +59,18 @@ Lemma E_call_soon h : E (call_soon h). Proof. intros w. constructor; [reflexivit
 Lemma E_store_stop st a k : E (store_stop st a k).
 Proof.
   intros w. unfold store_stop. destruct (aget key_eqb k _); [|apply E_put_store].
-  eapply ext_trans; [|apply E_neutral, n_store_callback]. eapply ext_trans; [apply E_put_store|apply E_cancel_opt].
+  eapply ext_trans; [|eapply E_neutral, n_store_callback]. eapply ext_trans; [apply E_put_store|apply E_cancel_opt].
 Qed.
 Lemma E_store_expired st a k : E (store_expired st a k).
 Proof.
   intros w. unfold store_expired. destruct (aget key_eqb k _); [|apply E_put_store].
-  eapply ext_trans; [apply E_put_store|apply E_neutral, n_store_callback].
+  eapply ext_trans; [apply E_put_store|eapply E_neutral, n_store_callback].
 Qed.
 Lemma E_store_stop_all_for_address st a : E (store_stop_all_for_address st a).
 Proof.
   intros w. unfold store_stop_all_for_address. eapply ext_trans; [apply E_put_store|].
   apply (E_fold (fun acc p => store_callback st (fst p) a (cancel_opt (snd p) acc))). intros p w0.
-  eapply ext_trans; [apply E_cancel_opt|apply E_neutral, n_store_callback].
+  eapply ext_trans; [apply E_cancel_opt|eapply E_neutral, n_store_callback].
 Qed.
 Lemma E_store_stop_all st : E (store_stop_all st).
 Proof.
@@ -90,10 +90,10 @@ Proof.
   - eapply ext_trans; [|apply E_refresh_tail]. eapply ext_trans; [apply E_put_store|apply E_cancel_opt].
   - destruct st as [|i], k as [s|sub]; try (eapply ext_trans; [apply E_put_store|apply E_refresh_tail]).
     + eapply ext_trans; [|apply E_refresh_tail]. eapply ext_trans; [apply E_put_store|].
-      apply E_neutral. apply n_notify_service. intros l. apply n_listener_offered.
+      eapply E_neutral. apply n_notify_service. intros l. apply n_listener_offered.
     + destruct (client_subscribed i sub a _) as [w' ok] eqn:Ec.
       match type of Ec with client_subscribed _ _ _ ?w0 = _ => pose proof (n_client_subscribed i sub a w0) as Hs; cbv beta in Hs; rewrite Ec in Hs; cbn [fst] in Hs end.
-      destruct ok; cbn [negb fst]; (eapply ext_trans; [apply E_put_store|]); [eapply ext_trans; [apply same_ext; exact Hs|apply E_refresh_tail]|apply same_ext; exact Hs].
+      destruct ok; cbn [negb fst]; (eapply ext_trans; [apply E_put_store|]); [eapply ext_trans; [eapply same_ext; exact Hs|apply E_refresh_tail]|eapply same_ext; exact Hs].
 Qed.
 
 (* ---- tasks, collectors *)
@@ -119,7 +119,7 @@ Proof. intros w. unfold sleep_done. destruct (get_task t w) as [tk|]; [|apply ex
 Lemma E_queue_send e d : E (queue_send e d).
 Proof.
   intros w0. unfold queue_send. apply (ext_trans _ (ghost (GQueue e d) w0)); [apply E_ghost|]. generalize (ghost (GQueue e d) w0). clear w0.
-  intros w. unfold queue_core. destruct (t_collect (cfg w) =? 0); [eapply ext_trans; [apply E_ghost|apply E_neutral, n_send_sd]|].
+  intros w. unfold queue_core. destruct (t_collect (cfg w) =? 0); [eapply ext_trans; [apply E_ghost|eapply E_neutral, n_send_sd]|].
   match goal with |- ext w (match ?o with Some _ => _ | None => _ end) => destruct o as [[c co]|] end; [apply E_set_collectors|].
   destruct (call_later (t_collect (cfg w)) (HCollector (next_id w)) w) as [tid w1] eqn:Ec.
   assert (w1 = snd (call_later (t_collect (cfg w)) (HCollector (next_id w)) w)) as -> by (rewrite Ec; reflexivity).
@@ -128,7 +128,7 @@ Qed.
 Lemma E_collector_timeout c : E (collector_timeout c).
 Proof.
   intros w. unfold collector_timeout. destruct (aget N.eqb c (collectors w)); [|apply ext_refl].
-  eapply ext_trans; [|apply E_neutral, n_send_sd]. eapply ext_trans; [apply E_ghost|apply E_set_collectors].
+  eapply ext_trans; [|eapply E_neutral, n_send_sd]. eapply ext_trans; [apply E_ghost|apply E_set_collectors].
 Qed.
 
 (* ---- composite functions *)
@@ -138,15 +138,15 @@ Lemma E_subscriber_start : E subscriber_start.
 Proof.
   intros w. unfold subscriber_start. destruct (sub_alive w); [apply ext_refl|].
   destruct (new_task TSub (set_sub_alive true w)) as [t w1] eqn:E0. pair_E (E_new_task TSub (set_sub_alive true w)) E0.
-  eapply ext_trans; [|apply E_neutral, n_set_sub_task]. eapply ext_trans; [apply E_neutral, n_set_sub_alive|exact K].
+  eapply ext_trans; [|eapply E_neutral, n_set_sub_task]. eapply ext_trans; [eapply E_neutral, n_set_sub_alive|exact K].
 Qed.
 Lemma E_subscriber_stop b : E (subscriber_stop b).
 Proof.
   intros w. unfold subscriber_stop. destruct (negb (sub_alive w)); [apply ext_refl|].
-  set (w1 := set_sub_alive false w). assert (H1 : ext w w1) by (apply E_neutral, n_set_sub_alive).
+  set (w1 := set_sub_alive false w). assert (H1 : ext w w1) by (eapply E_neutral, n_set_sub_alive).
   set (w2 := match sub_task w1 with Some t => set_sub_task None (cancel_task t w1) | None => w1 end).
   assert (H2 : ext w w2).
-  { unfold w2. destruct (sub_task w1); [|exact H1]. eapply ext_trans; [exact H1|]. eapply ext_trans; [apply E_cancel_task|apply E_neutral, n_set_sub_task]. }
+  { unfold w2. destruct (sub_task w1); [|exact H1]. eapply ext_trans; [exact H1|]. eapply ext_trans; [apply E_cancel_task|eapply E_neutral, n_set_sub_task]. }
   destruct b; [|exact H2]. eapply ext_trans; [exact H2|].
   apply (E_fold (fun acc p => call_soon (HSendStopSub (fst p) (snd p)) acc)). intros p. apply E_call_soon.
 Qed.
@@ -154,7 +154,7 @@ Lemma E_subscribe_round t : E (subscribe_round t).
 Proof.
   intros w. unfold subscribe_round. set (w1 := fold_left _ (group_entries (sub_entries w)) w).
   assert (H1 : ext w w1).
-  { unfold w1. apply (E_fold (fun acc p => send_subscribe (t_subscribe_ttl (cfg acc)) (fst p) (snd p) acc)). intros p w0. apply E_neutral, n_send_subscribe. }
+  { unfold w1. apply (E_fold (fun acc p => send_subscribe (t_subscribe_ttl (cfg acc)) (fst p) (snd p) acc)). intros p w0. eapply E_neutral, n_send_subscribe. }
   eapply ext_trans; [exact H1|]. destruct (t_refresh (cfg w1)); [apply E_task_sleep|apply E_finish_task].
 Qed.
 Lemma E_handle_offer e a : E (handle_offer e a).
@@ -165,23 +165,23 @@ Qed.
 Lemma E_discovery_start : E discovery_start.
 Proof.
   intros w. unfold discovery_start. match goal with |- ext w (if ?b then _ else _) => destruct b end; [apply ext_refl|].
-  destruct (new_task TFind w) as [t w1] eqn:E0. pair_E (E_new_task TFind w) E0. eapply ext_trans; [exact K|apply E_neutral, n_set_disc_task].
+  destruct (new_task TFind w) as [t w1] eqn:E0. pair_E (E_new_task TFind w) E0. eapply ext_trans; [exact K|eapply E_neutral, n_set_disc_task].
 Qed.
 Lemma E_discovery_stop : E discovery_stop.
-Proof. intros w. unfold discovery_stop. destruct (disc_task w); [|apply ext_refl]. eapply ext_trans; [apply E_cancel_task|apply E_neutral, n_set_disc_task]. Qed.
+Proof. intros w. unfold discovery_stop. destruct (disc_task w); [|apply ext_refl]. eapply ext_trans; [apply E_cancel_task|eapply E_neutral, n_set_disc_task]. Qed.
 Lemma E_inst_send_offer i d b : E (inst_send_offer i d b).
 Proof. intros w. unfold inst_send_offer. destruct (get_inst i w); [apply E_queue_send|apply ext_refl]. Qed.
 Lemma E_inst_start i : E (fun w => fst (inst_start i w)).
 Proof.
   intros w. unfold inst_start. destruct (get_inst i w) as [ins|]; [|apply ext_refl].
-  destruct (in_task ins); [cbn [fst]; apply E_neutral, n_emit; reflexivity|].
+  destruct (in_task ins); [cbn [fst]; eapply E_neutral, n_emit; reflexivity|].
   destruct (new_task (TOffer i) w) as [t w1] eqn:E0. cbn [fst]. pair_E (E_new_task (TOffer i) w) E0.
   eapply ext_trans; [exact K|apply E_put_inst].
 Qed.
 Lemma E_inst_stop i : E (fun w => fst (inst_stop i w)).
 Proof.
   intros w. unfold inst_stop. destruct (get_inst i w) as [ins|]; [|apply ext_refl].
-  destruct (in_task ins) as [t|]; [|cbn [fst]; apply E_neutral, n_emit; reflexivity]. cbn [fst].
+  destruct (in_task ins) as [t|]; [|cbn [fst]; eapply E_neutral, n_emit; reflexivity]. cbn [fst].
   eapply ext_trans; [|apply E_store_stop_all].
   set (w1 := put_inst i _ (cancel_task t w)). assert (H1 : ext w w1) by (eapply ext_trans; [apply E_cancel_task|apply E_put_inst]).
   destruct (t_cyclic (cfg w1) =? 0); [eapply ext_trans; [exact H1|apply E_inst_send_offer]|exact H1].
@@ -195,25 +195,25 @@ Lemma E_announcer_start : E announcer_start.
 Proof.
   intros w. unfold announcer_start. destruct (for_insts inst_start (announcing w) w) as [w1 ok] eqn:E0.
   pair_E (E_for_insts inst_start E_inst_start (announcing w) w) E0.
-  destruct ok; [eapply ext_trans; [exact K|apply E_neutral, n_set_ann_started]|exact K].
+  destruct ok; [eapply ext_trans; [exact K|eapply E_neutral, n_set_ann_started]|exact K].
 Qed.
 Lemma E_announcer_stop : E announcer_stop.
 Proof.
   intros w. unfold announcer_stop. destruct (negb (ann_started w)); [apply ext_refl|].
   destruct (for_insts inst_stop (announcing w) w) as [w1 ok] eqn:E0.
   pair_E (E_for_insts inst_stop E_inst_stop (announcing w) w) E0.
-  destruct ok; [eapply ext_trans; [exact K|apply E_neutral, n_set_ann_started]|exact K].
+  destruct ok; [eapply ext_trans; [exact K|eapply E_neutral, n_set_ann_started]|exact K].
 Qed.
 Lemma E_announce_service i : E (announce_service i).
 Proof.
-  intros w. unfold announce_service. destruct (ann_started w); [|apply E_neutral, n_set_announcing].
+  intros w. unfold announce_service. destruct (ann_started w); [|eapply E_neutral, n_set_announcing].
   destruct (inst_start i w) as [w1 ok] eqn:E0. pair_E (E_inst_start i w) E0.
-  destruct ok; [eapply ext_trans; [exact K|apply E_neutral, n_set_announcing]|exact K].
+  destruct ok; [eapply ext_trans; [exact K|eapply E_neutral, n_set_announcing]|exact K].
 Qed.
 Lemma E_stop_announce_service i b : E (stop_announce_service i b).
 Proof.
-  intros w. unfold stop_announce_service. destruct (remove_first N.eqb i (announcing w)); [|apply E_neutral, n_emit; reflexivity].
-  destruct (b && ann_started (set_announcing l w)); [eapply ext_trans; [apply E_neutral, n_set_announcing|apply E_inst_stop]|apply E_neutral, n_set_announcing].
+  intros w. unfold stop_announce_service. destruct (remove_first N.eqb i (announcing w)); [|eapply E_neutral, n_emit; reflexivity].
+  destruct (b && ann_started (set_announcing l w)); [eapply ext_trans; [eapply E_neutral, n_set_announcing|apply E_inst_stop]|eapply E_neutral, n_set_announcing].
 Qed.
 Lemma E_inst_handle_subscribe e a i : E (fun w => fst (inst_handle_subscribe e a i w)).
 Proof.
@@ -241,7 +241,7 @@ Proof.
   intros w. unfold announcer_handle_findservice. destruct (filter _ (announcing w)) as [|i0 l0]; [apply ext_refl|]. destruct mc.
   - destruct (draw (t_rr_min (cfg w)) (t_rr_max (cfg w)) w) as [d w1] eqn:Ed.
     pose proof (n_draw (t_rr_min (cfg w)) (t_rr_max (cfg w)) w) as Hs. cbv beta in Hs. rewrite Ed in Hs. cbn [snd] in Hs.
-    eapply ext_trans; [apply same_ext; exact Hs|]. apply (E_fold (fun acc i => snd (call_later d (HAnswerFind i a) acc))). intros i. apply E_call_later.
+    eapply ext_trans; [eapply same_ext; exact Hs|]. apply (E_fold (fun acc i => snd (call_later d (HAnswerFind i a) acc))). intros i. apply E_call_later.
   - apply (E_fold (fun acc i => call_soon (HAnswerFind i a) acc)). intros i. apply E_call_soon.
 Qed.
 Lemma E_answer_find i a : E (answer_find i a).
@@ -256,8 +256,8 @@ Lemma E_stop_offer_branch t inst : E (fun w =>
   let w1 := set_can_answer inst false w in finish_task t (if t_cyclic (cfg w1) =? 0 then w1 else inst_send_offer inst None true w1)).
 Proof.
   intros w. cbv zeta. eapply ext_trans; [|apply E_finish_task].
-  destruct (t_cyclic (cfg (set_can_answer inst false w)) =? 0); [apply E_neutral, n_set_can_answer|].
-  eapply ext_trans; [apply E_neutral, n_set_can_answer|apply E_inst_send_offer].
+  destruct (t_cyclic (cfg (set_can_answer inst false w)) =? 0); [eapply E_neutral, n_set_can_answer|].
+  eapply ext_trans; [eapply E_neutral, n_set_can_answer|apply E_inst_send_offer].
 Qed.
 Lemma E_task_step t : E (task_step t).
 Proof.
@@ -268,20 +268,20 @@ Proof.
     + destruct (tk_must_cancel tk); [apply E_finish_task|]. destruct (watched w); [apply E_finish_task|].
       destruct (draw (t_init_min (cfg w)) (t_init_max (cfg w)) w) as [d w1] eqn:Ed.
       pose proof (n_draw (t_init_min (cfg w)) (t_init_max (cfg w)) w) as Hs. cbv beta in Hs. rewrite Ed in Hs. cbn [snd] in Hs.
-      eapply ext_trans; [apply same_ext; exact Hs|apply E_task_sleep].
+      eapply ext_trans; [eapply same_ext; exact Hs|apply E_task_sleep].
     + destruct p; destruct (tk_must_cancel tk); try apply E_finish_task;
-        (destruct (find_entries w) eqn:Ef; [apply E_finish_task|]; eapply ext_trans; [apply E_neutral, n_send_sd|apply E_find_next]).
+        (destruct (find_entries w) eqn:Ef; [apply E_finish_task|]; eapply ext_trans; [eapply E_neutral, n_send_sd|apply E_find_next]).
   - destruct (tk_pc tk) as [|p].
     + destruct (tk_must_cancel tk); [apply E_finish_task|].
       destruct (draw (t_init_min (cfg w)) (t_init_max (cfg w)) w) as [d w1] eqn:Ed.
       pose proof (n_draw (t_init_min (cfg w)) (t_init_max (cfg w)) w) as Hs. cbv beta in Hs. rewrite Ed in Hs. cbn [snd] in Hs.
-      eapply ext_trans; [apply same_ext; exact Hs|apply E_task_sleep].
+      eapply ext_trans; [eapply same_ext; exact Hs|apply E_task_sleep].
     + repeat match goal with |- context [match ?q with xI _ => _ | xO _ => _ | xH => _ end] => destruct q end;
       destruct (tk_must_cancel tk);
       first [ apply E_finish_task
             | apply (E_stop_offer_branch t inst)
             | eapply ext_trans; [|apply E_offer_next];
-              first [ eapply ext_trans; [apply E_inst_send_offer|apply E_neutral, n_set_can_answer] | apply E_inst_send_offer ]
+              first [ eapply ext_trans; [apply E_inst_send_offer|eapply E_neutral, n_set_can_answer] | apply E_inst_send_offer ]
             | eapply ext_trans; [apply E_inst_send_offer|apply E_task_sleep] ].
 Qed.
 Lemma E_sd_message_received h a mc : E (sd_message_received h a mc).
@@ -306,7 +306,7 @@ Proof.
   pose proof (n_set_sess_rx w a mc (sd_reboot h) (m_sess m)) as Hrx.
   destruct (check_received (sess w) a mc (sd_reboot h) (m_sess m)) as [rb s']. cbn [snd] in Hrx.
   assert (H2 : ext w (if rb then reboot_detected a (set_sess s' w) else set_sess s' w)).
-  { destruct rb; [eapply ext_trans; [apply same_ext; exact Hrx|apply E_reboot_detected]|apply same_ext; exact Hrx]. }
+  { destruct rb; [eapply ext_trans; [eapply same_ext; exact Hrx|apply E_reboot_detected]|eapply same_ext; exact Hrx]. }
   destruct (resolve_sd h); [eapply ext_trans; [exact H2|apply E_sd_message_received]|exact H2].
 Qed.
 Lemma E_datagram_received data a mc : E (datagram_received data a mc).
@@ -316,15 +316,15 @@ Proof.
   intros w. destruct c; cbn [exec_api].
   - unfold proto_start. eapply ext_trans; [apply E_subscriber_start|]. eapply ext_trans; [apply E_announcer_start|apply E_discovery_start].
   - unfold proto_stop. eapply ext_trans; [apply E_discovery_stop|]. eapply ext_trans; [apply E_announcer_stop|apply E_subscriber_stop].
-  - apply E_neutral, n_connection_lost.
-  - apply E_neutral, n_watch_service.
-  - apply E_neutral, n_stop_watch_service.
-  - apply E_neutral, n_watch_all_services.
-  - apply E_neutral, n_stop_watch_all_services.
-  - apply E_neutral, n_watch_service.
-  - apply E_neutral, n_stop_watch_service.
-  - apply E_neutral, n_subscribe_eventgroup.
-  - apply E_neutral, n_stop_subscribe_eventgroup.
+  - eapply E_neutral, n_connection_lost.
+  - eapply E_neutral, n_watch_service.
+  - eapply E_neutral, n_stop_watch_service.
+  - eapply E_neutral, n_watch_all_services.
+  - eapply E_neutral, n_stop_watch_all_services.
+  - eapply E_neutral, n_watch_service.
+  - eapply E_neutral, n_stop_watch_service.
+  - eapply E_neutral, n_subscribe_eventgroup.
+  - eapply E_neutral, n_stop_subscribe_eventgroup.
   - apply E_subscriber_start.
   - apply E_subscriber_stop.
   - apply E_discovery_start.
@@ -334,7 +334,7 @@ Proof.
   - apply E_announce_service.
   - apply E_stop_announce_service.
   - apply E_queue_send.
-  - apply E_neutral, n_send_sd.
+  - eapply E_neutral, n_send_sd.
   - destruct (get_inst i w); [apply E_put_inst|apply ext_refl].
 Qed.
 
@@ -344,7 +344,7 @@ Proof.
   intros w. destruct h; cbn [exec].
   - apply E_datagram_received. - apply E_exec_api. - apply E_subscriber_stop. - apply E_store_stop_all.
   - apply E_announcer_stop. - apply E_store_stop_all_for_address. - apply E_handle_offer.
-  - apply E_neutral, n_send_subscribe. - apply E_neutral, n_send_subscribe. - apply E_store_expired.
+  - eapply E_neutral, n_send_subscribe. - eapply E_neutral, n_send_subscribe. - apply E_store_expired.
   - apply E_collector_timeout. - apply E_answer_find. - apply E_task_step. - apply E_sleep_done.
 Qed.
 
